@@ -17,13 +17,23 @@ CONFIG = dict(
              'added twice and removed once, redeployment, then an analysis deployed whose requirements reach that name, the uast feature off / on first / on just before the last deployment; every '
              'sequence of up to 3 (thorough 4) calls over a 9-call alphabet; random sequences of 2..12 calls over the whole registry with synthetic roots): the content of the pipeline (instance '
              'ids + names) is compared with the model after EVERY call and the deploy-closure oracle is applied to every DeployItem, then Initialize (dry run). '
+             '(v) round 3, kinds seqinitexh / seqinitreal / seqinitrepair / seqinitrandom: Initialize (dry run) is called SEVERAL times within one sequence on the same Pipeline object, interleaved with '
+             'RemoveItem / AddItem / DeployItem / SetFeature / restore (AddItem of the very instance RemoveItem took out): a five-item synthetic world initialised once, then every sequence of up to 3 (thorough 4) calls over a 14-call '
+             'alphabet (same-named replacement, a same-named item that closes a cycle / has other requirements / requires an unknown entity, removals, restores, Initialize), then Initialize again; every leaf analysis x uast off/on deployed and initialised, '
+             'each deployed item replaced by a new registry instance / a customised copy / the removed instance, Initialize, a second analysis deployed (uast switched on in between), Initialize, the first analysis removed, Initialize, the '
+             'pipeline emptied and used again; fail -> repair -> retry on layered synthetic sets (cycle / unknown entity / third provider introduced by a same-named exchange, observed after the failing call, twice in a row, repaired by a new '
+             'instance or by restoring the removed one); random rounds of modifications. After EVERY Initialize the outcome is judged like a final one (resolved order against the model outcomes of the item set the call saw and the property '
+             'oracles), the same instances are initialised in a FRESH pipeline (twin, judged the same), and the content of the pipeline is recorded - after a FAILING call it must hold exactly the instances it held before (PROPFAIL [failed-initialize]) '
+             'in name order (model), and the sequence continues from it. In the odd runs of every sequence kind a second, unrelated pipeline is driven through the same registry between the calls (shared structures). '
+             'kind twopaths: the refiner of a doubly provided entity reads it through 0..4 intermediate consumers, parallel or chained, 1..3 items deep, with / without requiring the entity itself; kind namecollide: 2..4 items named X next to an item literally named X_j. '
              'Each case is run 4 times (Go randomises map iteration); the 4 runs also vary the other options Initialize reads: none / DAG dump to a file / DumpPlan + PrintActions + hibernation distance / all. '
              'Non-trivial = at least 2 items and at least one requirement; distinct = distinct input (item list, or feature list + deployment list, or call sequence).',
         exhaustive_note='all 512 subsets of the registered leaf analyses x {uast off, uast on} (thorough: in two deployment orders), every '
                         'registered item alone x {off, on}; all 256 ordered pairs and all 816 multisets of 3 items whose provides/requires '
                         'are subsets of {a,b} (thorough: also 2 items over 3 entities); every sequence of at most 3 (thorough 4) API calls over the alphabet '
                         '{AddItem TreeDiff, DeployItem TreeDiff, AddItem IdentityDetector, DeployItem Couples, DeployItem FileDiffRefiner, RemoveItem oldest / newest TreeDiff, '
-                        'RemoveItem newest IdentityDetector, SetFeature uast}; the whole grid stages 1..8 x side chain 0..8 of the cascade family',
+                        'RemoveItem newest IdentityDetector, SetFeature uast}; the whole grid stages 1..8 x side chain 0..8 of the cascade family; round 3: after [AddItem C, B, E, A; Initialize] every sequence of at most 3 (thorough 4) calls over '
+                        '{AddItem A / cyclic A / B / B with other requirements / U (unknown entity), RemoveItem oldest A / newest A / B / C / E / U, restore A / B, Initialize} followed by Initialize; every leaf x uast x deployed item x 3 ways of replacing it',
         assumptions=['item names and entity keys enter the model as integer ranks of the strings under byte-wise order (what resolve uses of '
                      'them: equality and Go string order); the replay driver computes the ranks, the bracketed key names "[k]" and the '
                      'disambiguated names "n_i"',
@@ -32,7 +42,7 @@ CONFIG = dict(
                      'FindParents / BreadthSort / FindCycle iterate Go maps: the model takes the orders as choice arguments, the theorems '
                      'quantify over them; the driver accepts an implementation outcome if some of a family of 49 (on a miss up to 60) orders reproduces it (walked lazily)',
                      'AddItem appends the instance, RemoveItem deletes the first occurrence of the instance and nothing else: three lines of Go each, mirrored in the replay driver (not in Coq); '
-                     'SetFeature / DeployItem are the extracted set_feature / deploy',
+                     'SetFeature / DeployItem are the extracted set_feature / deploy; a failing Initialize leaves the items sorted by name (stable sort in the driver), a successful one in the order it reports; the model continues from the order the implementation left',
                      'item sets with more than 64 items (kind scale) are not run through the model: judged by perm_b / chain_order_ok / unsatisfiedb on the implementation output',
                      'registry: one registered item per name (checked per run by the extracted reg_okb on the registry table read from the implementation)'],
         trusted_base=['hand-written Gallina models coq/theories/Pipeline/Resolve.v (Pipeline.resolve) and Deploy.v (Pipeline.DeployItem, '
@@ -46,12 +56,16 @@ CONFIG = dict(
                    'C10_deploy_closure + C10_deploy_total (DeployItem terminates and adds exactly the least set closed under enabled providers/namesakes of requirements). '
                    'C10_strict_order_checker_sound (strict validator chain_order_ok: accepted order => permutation, every requirement provided strictly before and by no item after, implies order_ok). '
                    'The chained (two-provider) case is decided per run by the proved-sound validators: a success must pass order_ok, and chain_order_ok whenever a strict order exists; a '
-                   '"topological sort failure" is a failure whenever a strict order exists (the requirements are then not cyclic in any reading): partial.',
+                   '"topological sort failure" is a failure whenever a strict order exists (the requirements are then not cyclic in any reading): partial. '
+                   'Round 3: C10_chained_two_feeders_refuted and C10_name_collision_lost_item_refuted (two further regions in which the statement is false of the current code, see level_note); every Initialize of a call sequence, '
+                   'failing ones included, is judged by the same validators and must keep the set of deployed instances.',
         level_note='Partial: no general theorem for the chaining block; C10_chained_norequire_{order,lost_item,panic}_refuted and C10_chained_shared_panic_refuted prove that the full statement is '
                    'false of the current code in two input regions decided by the extracted region_of (tags [chained:no-provider-requires-entity], '
                    '[chained:item-provides-two-ambiguous-entities]: known findings C10-K1/K2), C10_chained_not_farther_refuted in a third one decided by the extracted shallow_secondb inside the remaining chained regions '
                    '(tag [chained:second-provider-not-farther-from-roots]: the BreadthSort rank picks the wrong end of the chain, "topological sort failure" for an acyclic set, random on ties: known finding C10-K3); '
-                   'every other region, all leaf subsets, all API call sequences and all one-provider sets are clean. Not judged (counted as resolve_err_sort_chained_suffix_order_exists): a chained "topological sort failure" for a set '
+                   'round 3: C10_chained_two_feeders_refuted in a fourth one decided by the extracted two_feeders_b (tag [chained:refiner-fed-by-two-consumers]: the refiner transitively requires TWO consumers of its entity, FindCycle keeps one of them in front of it: '
+                   '"topological sort failure" although order_ok accepts an order; judged only there), and C10_name_collision_lost_item_refuted OUTSIDE the domain, decided by the extracted collision_only_b (tag [generated-node-name-equals-item-name]: X, X and an item literally named X_1 share a graph node, Initialize succeeds and an item is lost; only that is judged there); '
+                   'every other region, all leaf subsets, all API call sequences (also with several Initialize calls, failing ones included) and all one-provider sets are clean. Not judged (counted as resolve_err_sort_chained_suffix_order_exists): a chained "topological sort failure" for a set '
                    'that has no strict order but an order with the BlobCache exception (a consumer may precede a later provider that depends on it). Modelled, not verified: the Go code (tie = replay); '
                    'fuel of BreadthSort/Toposort in the chained case is not proved sufficient (an out-of-fuel model outcome is reported as a mismatch; the deploy fuel is: C10_deploy_total).',
         technique='Coq proof over an executable model + extracted validator on implementation outputs + exhaustive replay of the finite leaf x feature scope',
